@@ -34,13 +34,15 @@ def run(chk):
     quick = chk.tier == 'quick'
     confs = [(40, 64), (41, 63)] if quick else [(40, 64), (41, 63), (48, 48), (50, 101), (64, 128)]
     over = {'corrlag': 10}
+    widx = [chk.seed]
     for N, nfft in confs:
         n = np.arange(N)
         for kind in (['noise', 'tones'] if quick else ['noise', 'tones', 'arma']):
             xc = zoo.signal(rng, N, True, kind)
             xr = zoo.signal(rng, N, False, kind)
             shifts = sorted(set([1, nfft // 4, nfft - 1, int(rng.randint(2, nfft))] + ([] if quick else [int(rng.randint(2, nfft)) for _ in range(3)])))
-            for name in zoo.CLASSES + zoo.VARIANTS:
+            widx[0] += 1
+            for name in zoo.CLASSES + zoo.VARIANTS + (zoo.window_variants(widx[0]) if quick else zoo.window_variants(widx[0], 29)):
                 ok0, base = call_guard(psd_of, name, xc.copy(), nfft, over)
                 sc = float(np.max(np.abs(base))) if ok0 and len(base) else 1.0
                 flat = bool(ok0 and len(base) and (np.max(base.real) - np.min(base.real)) < 1e-6 * sc)
@@ -64,9 +66,17 @@ def run(chk):
                 for dt, x in (('complex', xc), ('real', xr)):
                     okb, b = call_guard(psd_of, name, x.copy(), nfft, over)
                     okr, r = call_guard(psd_of, name, np.conj(x[::-1]).copy(), nfft, over)
-                    ev = {'ev': 'reversal', 'cls': name, 'dt': dt, 'nfft': nfft, 'N': N, 'raised': not (okb and okr)}
+                    ev = {'ev': 'reversal', 'cls': name, 'dt': dt, 'nfft': nfft, 'N': N, 'raised': not (okb and okr),
+                          'periodogram': name.startswith('Periodogram')}
                     ev['dev'] = obs.q(np.max(np.abs(r - b)) / max(float(np.max(np.abs(b))), 1e-300)) if okb and okr and r.shape == b.shape else (obs.QCAP if okb and okr else 0)
                     batch.add(ev, {'cls': name, 'dt': dt, 'N': N, 'nfft': nfft, 'kind': kind, 'seed': chk.seed})
+                # single-precision complex samples are complex data
+                if ':' not in name:
+                    ok64, p64 = call_guard(psd_of, name, xc.astype(np.complex64), nfft, over)
+                    ev = {'ev': 'dtype', 'cls': name, 'nfft': nfft, 'N': N, 'raised': not (ok0 and ok64)}
+                    ev['len_ok'] = bool(ok0 and ok64 and p64.shape == base.shape)
+                    ev['dev'] = obs.q(np.max(np.abs(p64 - base)) / sc) if ev['len_ok'] else 0
+                    batch.add(ev, {'cls': name, 'N': N, 'nfft': nfft, 'kind': kind, 'seed': chk.seed})
                 # real data: one-sided = 2 x first half of the two-sided estimate of the same samples declared complex
                 oko, one = call_guard(psd_of, name, xr.copy(), nfft, over)
                 okt, two = call_guard(psd_of, name, xr.astype(complex), nfft, over)
@@ -77,6 +87,16 @@ def run(chk):
                 else:
                     ev['dev'] = 0
                 batch.add(ev, {'cls': name, 'N': N, 'nfft': nfft, 'kind': kind, 'seed': chk.seed})
+    # time reversal of the periodogram with EVERY window name (each window must be symmetric: C20), N even and odd
+    for N, nfft in confs[:2]:
+        for dt in ('complex', 'real'):
+            x = zoo.signal(rng, N, dt == 'complex', 'noise')
+            for name in zoo.window_variants(0, 29):
+                okb, b = call_guard(psd_of, name, x.copy(), nfft, over)
+                okr, r = call_guard(psd_of, name, np.conj(x[::-1]).copy(), nfft, over)
+                ev = {'ev': 'reversal', 'cls': name, 'dt': dt, 'nfft': nfft, 'N': N, 'raised': not (okb and okr), 'periodogram': True}
+                ev['dev'] = obs.q(np.max(np.abs(r - b)) / max(float(np.max(np.abs(b))), 1e-300)) if okb and okr and r.shape == b.shape else (obs.QCAP if okb and okr else 0)
+                batch.add(ev, {'cls': name, 'dt': dt, 'N': N, 'nfft': nfft, 'seed': chk.seed})
     obs.validate(chk, batch, 'obs-symmetries', lambda ev, cl: 'C04:%s:%s:%s:%s' % (ev['ev'], ev['cls'], 'odd' if ev['nfft'] % 2 else 'even', cl),
                  lambda ev, cl: '%s NFFT=%d N=%d: clause "%s" fails: %s' % (ev['cls'], ev['nfft'], ev['N'], cl, ev))
     chk.sample('obs-event', batch.events[0], 1)
